@@ -212,8 +212,76 @@ func (c *Ctx) ruleReconnectResumes(rr *RuleRep) {
 			conn = phi
 		}
 	}
+	// path formulation (used when the guard is not the reference tree's `if !connected { wait…; continue }`): from the
+	// goroutine's entry, and from every point at which the connection is known to be lost — the client was replaced
+	// (receive from chConnSwitch) or closed for a retry — no path reaches the task call without passing the edge on which the
+	// connect result channel was found closed without an error value
+	pathGuard := func() bool {
+		okEdge := map[ifEdge]bool{}
+		for _, bb := range g.Blocks {
+			iff := blockIf(bb)
+			if iff == nil {
+				continue
+			}
+			ex, ok := iff.Cond.(*ssa.Extract)
+			if !ok || ex.Index != 1 {
+				continue
+			}
+			sel, ok := ex.Tuple.(*ssa.Select)
+			if !ok {
+				continue
+			}
+			for _, s := range sel.States {
+				if _, ok := isLoadOfField(c.Resolve(s.Chan), a.ChConnErr); ok && s.Dir == types.RecvOnly {
+					okEdge[ifEdge{bb, 1}] = true
+				}
+			}
+		}
+		if len(okEdge) == 0 {
+			return false
+		}
+		q := PathQ{BlockEdge: func(b *ssa.BasicBlock, k int) bool { return okEdge[ifEdge{b, k}] }}
+		isTask := func(in ssa.Instruction) bool { return in == ssa.Instruction(taskCall) }
+		if _, reach := CanReach(g, nil, isTask, q); reach {
+			return false
+		}
+		lost := 0
+		bad := false
+		eachInstr(g, func(in ssa.Instruction) {
+			switch x := in.(type) {
+			case *ssa.Select:
+				for _, cs := range selectCases(x) {
+					if cs.State == nil || !cs.HasEdge || cs.State.Dir != types.RecvOnly {
+						continue
+					}
+					if _, isSw := isFieldLoad(c.Resolve(cs.State.Chan), "RetryClient", aliasField("RetryClient", "chConnSwitch")); !isSw {
+						continue
+					}
+					lost++
+					first := cs.Edge.B.Succs[cs.Edge.K].Instrs[0]
+					if isTask(first) {
+						bad = true
+					} else if _, reach := CanReach(g, first, isTask, q); reach {
+						bad = true
+					}
+				}
+			case *ssa.Call:
+				if callee := c.StaticCalleeOf(&x.Call); callee != nil && callee == c.Method("BaseClient", "Close") {
+					lost++
+					if _, reach := CanReach(g, in, isTask, q); reach {
+						bad = true
+					}
+				}
+			}
+		})
+		return !bad && lost > 0
+	}
 	if conn == nil {
-		rr.Bad(gk+"/connected", taskCall.Pos(), "tasks are executed without a `connected` guard: requests are issued on a client whose Connect has not succeeded")
+		if pathGuard() {
+			rr.OK(gk+"/connected", taskCall.Pos(), "no path from the goroutine's entry, from a replaced client or from a client closed for a retry reaches the task call without a connect result channel closed without an error value")
+		} else {
+			rr.Bad(gk+"/connected", taskCall.Pos(), "tasks are executed without a `connected` guard: requests are issued on a client whose Connect has not succeeded")
+		}
 	} else {
 		okAll := true
 		nTrue := 0
@@ -261,6 +329,8 @@ func (c *Ctx) ruleReconnectResumes(rr *RuleRep) {
 		}
 		if okAll && nTrue > 0 {
 			rr.OK(gk+"/connected", taskCall.Pos(), "tasks run only while `connected`; it becomes true only when chConnectErr is closed without an error value")
+		} else if pathGuard() {
+			rr.OK(gk+"/connected", taskCall.Pos(), "no path from the goroutine's entry, from a replaced client or from a client closed for a retry reaches the task call without a connect result channel closed without an error value")
 		} else {
 			rr.Bad(gk+"/connected", taskCall.Pos(), "`connected` can become true without a successful Connect (a failed Connect's error value, or nothing at all, is taken for success): tasks are then executed against an unconnected client and their requests fail or are dropped")
 		}
